@@ -1170,7 +1170,7 @@ class ValueGen:
         u, _ = _barril()
         b = self.qt()
         un, c = self.unit_of(b), self.cat_of(b)
-        form = rng.choice(["dim_lt2", "dim_lt2_c", "len_mismatch", "len_mismatch_q", "cwq_mismatch", "cwq_short", "both_values", "copy_len", "empty_mismatch", "empty_lt2"])
+        form = rng.choice(["dim_lt2", "dim_lt2_c", "len_mismatch", "len_mismatch_q", "cwq_mismatch", "cwq_short", "both_values", "copy_len", "copy_len", "copy_len_unit", "copy_len_unit", "nd_shape", "nd_shape", "empty_mismatch", "empty_lt2"])
         spec = [{"o": "raises", "p": "C11", "id": "C11.reject_contradiction", "cls": ["ValueError"], "case": form}]
         if form == "dim_lt2":
             d = rng.choice([1, 0, -1])
@@ -1210,6 +1210,58 @@ class ValueGen:
             d = fa[1].dimension
             o = self.op("fixed.CreateCopy.values", ref(fa[0]), "CreateCopy", [], kw={"values": self.container(d + rng.choice([1, -1, 2]), kinds=("L", "T", "N"))})
             spec.append({"o": "target_unchanged", "p": "C11", "id": "C11.reject_contradiction"})
+        elif form == "copy_len_unit":
+            # CreateCopy(values=<other length>, unit=..[, category=..]): every keyword route, also
+            # for arrays whose quantity is empty (CreateEmptyArray, a / a)
+            fa = self.arr(sim, fixed=True)
+            if fa is None:
+                return None
+            d = fa[1].dimension
+            empties = sim.live(lambda v: isinstance(v, u.FixedArray) and not v.GetQuantity().GetUnit() and not v.GetQuantity().GetCategory())
+            if empties and rng.random() < 0.5:
+                fa = rng.choice(empties)
+                d = fa[1].dimension
+            q = fa[1].GetQuantity()
+            if q.IsDerived() and (q.GetUnit() or q.GetCategory()):
+                return None
+            kw = {"values": self.container(d + rng.choice([1, -1, 2]), kinds=("L", "T", "N"))}
+            if M.is_simple_known(fa[1]):
+                bb = self.basis_for_qt(q.GetQuantityType())
+                kw["unit"] = self.unit_same_type(fa[1]) or fa[1].GetUnit()
+                if bb is not None and rng.random() < 0.4:
+                    kw["category"] = self.cat_of(bb)
+            elif not q.GetUnit():
+                kw["unit"] = un  # empty quantity: the copy takes the given unit
+                if rng.random() < 0.3:
+                    kw["category"] = c
+            else:
+                return None
+            o = self.op("fixed.CreateCopy.values_unit", ref(fa[0]), "CreateCopy", [], kw=kw)
+            spec.append({"o": "target_unchanged", "p": "C11", "id": "C11.reject_contradiction"})
+        elif form == "nd_shape":
+            # a multi-axis numpy container whose element count equals the dimension but whose length
+            # (first axis) does not
+            d = rng.choice([2, 3, 4, 4, 6])
+            shape = {2: [1, 2], 3: [1, 3], 4: rng.choice([[1, 4], [2, 2]]), 6: rng.choice([[2, 3], [3, 2], [1, 6]])}[d]
+            V = {"N": W.draw_values(rng, d), "dt": "float64", "sh": shape}
+            route = rng.choice(["ctor", "ctor_c", "copy", "cwq_d", "empty_v"])
+            if route == "ctor":
+                o = self.op("mk.FixedArray.dVu", "FixedArray", "()", [d, V, un])
+            elif route == "ctor_c":
+                o = self.op("mk.FixedArray.dcVu", "FixedArray", "()", [d, c, V, un])
+            elif route == "empty_v":
+                o = self.op("mk.FixedArray.empty_v", "FixedArray", "CreateEmptyArray", [d, V])
+            elif route == "cwq_d":
+                q = self.quant(sim)
+                if q is None:
+                    return None
+                o = self.op("mk.FixedArray.cwq_d", "FixedArray", "CreateWithQuantity", [ref(q[0]), V], kw={"dimension": d})
+            else:
+                fas = sim.live(lambda v: isinstance(v, u.FixedArray) and v.dimension == d)
+                if not fas:
+                    return None
+                fa = rng.choice(fas)
+                o = self.op("fixed.CreateCopy.values", ref(fa[0]), "CreateCopy", [], kw={"values": V})
         elif form == "empty_mismatch":
             d = rng.choice([2, 3])
             o = self.op("mk.FixedArray.empty_v", "FixedArray", "CreateEmptyArray", [d, self.container(d + 1, kinds=("L", "T", "N"))])
